@@ -50,6 +50,7 @@ type gcfg struct {
 	tp     topo
 	max    []int64 // per quota (conc only)
 	expSec []int64
+	flt    []string // per quota: own filter ("" = host/*)
 }
 
 func (g gcfg) line() string {
@@ -75,6 +76,11 @@ func (g gcfg) line() string {
 			fmt.Fprintf(&b, " q%d=c,%d,%d,%s", i, g.max[i], g.expSec[i], q[1:])
 		}
 	}
+	for i, f := range g.flt {
+		if f != "" {
+			fmt.Fprintf(&b, " f%d=%s", i, f)
+		}
+	}
 	return b.String()
 }
 
@@ -89,12 +95,28 @@ func randCfg(r *prng.R, tp topo) gcfg {
 		g.max[i] = int64(prng.Pick(r, []int{1, 1, 2, 2, 3, 3, 4}))
 		g.expSec[i] = int64(r.Range(1, 3))
 	}
+	// quota filters narrower than / different from the flow's filter (host/*): one method only, one path only, a
+	// required request header
+	if r.Chance(35) {
+		g.flt = make([]string, len(tp.quotas))
+		for i := range tp.quotas {
+			if r.Chance(50) {
+				g.flt[i] = prng.Pick(r, []string{"mG", "mP", "py", "h"})
+			}
+		}
+	}
 	return g
 }
 
 // history generator: tracks the virtual time and the expiry instants a request would get, so that clock
 // advances land exactly on / one ns around expiries and GC instants.
+type txShape struct {
+	post bool
+	path string
+}
+
 type hist struct {
+	last   map[int]txShape // shape of the transaction's last request (its response carries the same method and URL)
 	g      gcfg
 	now    int64
 	expiry []int64
@@ -106,17 +128,45 @@ func (h *hist) nextTick() int64 {
 	return h.g.t0 + k*h.g.gcSec*sec
 }
 
-func (h *hist) req(id int, post bool) {
+func (h *hist) req(id int, post bool) { h.reqShaped(id, post, "x", false) }
+
+func (h *hist) reqShaped(id int, post bool, path string, hdr bool) {
 	m := "G"
 	if post {
 		m = "P"
 	}
-	h.ops = append(h.ops, fmt.Sprintf("req r=%d m=%s", id, m))
+	op := fmt.Sprintf("req r=%d m=%s", id, m)
+	if path != "x" {
+		op += " p=" + path
+	}
+	if hdr {
+		op += " h=1"
+	}
+	if h.last == nil {
+		h.last = map[int]txShape{}
+	}
+	h.last[id] = txShape{post, path}
+	h.ops = append(h.ops, op)
 	for i, q := range h.g.tp.quotas {
 		if q[0] == 'c' {
 			h.expiry = append(h.expiry, h.now+h.g.expSec[i]*sec+deltaD)
 		}
 	}
+}
+
+func (h *hist) resp(id int) {
+	sh, ok := h.last[id]
+	if !ok {
+		sh = txShape{false, "x"}
+	}
+	op := fmt.Sprintf("resp r=%d", id)
+	if sh.post {
+		op += " m=P"
+	}
+	if sh.path != "x" {
+		op += " p=" + sh.path
+	}
+	h.ops = append(h.ops, op)
 }
 
 func (h *hist) adv(d int64) {
@@ -159,9 +209,13 @@ func randomCase(r *prng.R, id string, maxLen int) proto.Case {
 		tx := r.Range(1, ntx)
 		switch k := r.Intn(100); {
 		case k < 38:
-			h.req(tx, r.Chance(20))
+			if g.flt != nil {
+				h.reqShaped(tx, r.Chance(45), prng.Pick(r, []string{"x", "x", "y"}), r.Chance(40))
+			} else {
+				h.req(tx, r.Chance(20))
+			}
 		case k < 55:
-			h.ops = append(h.ops, fmt.Sprintf("resp r=%d", tx))
+			h.resp(tx)
 		case k < 68:
 			h.ops = append(h.ops, fmt.Sprintf("err r=%d", tx))
 		case k < 90:
@@ -266,7 +320,7 @@ func (h *hist) apply(tok string) {
 	case "early":
 		h.req(tx, true)
 	case "resp":
-		h.ops = append(h.ops, fmt.Sprintf("resp r=%d", tx))
+		h.resp(tx)
 	case "err":
 		h.ops = append(h.ops, fmt.Sprintf("err r=%d", tx))
 	case "expire":
